@@ -556,7 +556,8 @@ func (ex *Exec) dispatch(from *Thread) {
 			continue
 		}
 		ex.fireAlt(a)
-		if a.partner != nil {
+		if a.partner != nil && a.partner != from {
+			// (when the partner is the dispatching thread itself it keeps a visible "resume" step instead)
 			// the rendezvous partner runs its invisible local steps up to its next scheduling point now
 			ex.runUntilYield(a.partner)
 		}
